@@ -2,6 +2,7 @@
 
 import os
 import pathlib
+import re
 import shutil
 from typing import Sequence, Protocol
 
@@ -411,9 +412,17 @@ def resize_image_to_macro_block(
     return image
 
 
+def _frame_number(frame_name: str) -> int:
+    """Returns the number in the name of a frame file ("frame_105.png")."""
+    match = re.search(r"\d+", frame_name)
+    return int(match.group()) if match else -1
+
+
 def _load_images(frames_dir: str) -> list:
+    # Frames are sorted by their number: sorting the names would put
+    # "frame_100.png" before "frame_11.png".
     frames = [
         os.path.join(frames_dir, frame)
-        for frame in sorted(os.listdir(frames_dir))
+        for frame in sorted(os.listdir(frames_dir), key=_frame_number)
     ]
     return [imageio.imread(frame) for frame in frames]
